@@ -253,3 +253,16 @@ if [ ! -f tlsp384.cert.pem ]; then
   ecid tlsclip521 secp521r1 "client p521" clientAuth "" 9964
   openssl verify -CAfile rsaCA.cert.pem tlsp384.cert.pem tlsp521.cert.pem tlsclip384.cert.pem tlsclip521.cert.pem 2>&1 | tr '\n' ' '; echo
 fi
+# wave 14: client certificates valid only around 2033-01-01 (virtual time zero is 2030-01-01): valid under a
+# Config.Time set three years ahead, not yet valid under the process clock
+if [ ! -f clifar.cert.pem ]; then
+  openssl genpkey -algorithm SM2 -out clifar.key.pem 2>/dev/null
+  { echo "basicConstraints=critical,CA:FALSE"; echo "keyUsage=critical,digitalSignature"; echo "extendedKeyUsage=clientAuth"; echo "subjectKeyIdentifier=hash"; echo "authorityKeyIdentifier=keyid"; } > t.ext
+  openssl req -new -key clifar.key.pem -subj "/C=CN/O=verifsim/CN=client valid around 2033 only" -out t.csr -sm3 $D
+  openssl x509 -req $V -in t.csr -CA caA.cert.pem -CAkey caA.key.pem -out clifar.cert.pem -extfile t.ext -not_before 20321220000000Z -not_after 20330201000000Z -sm3 $D -set_serial 9971 2>/dev/null
+  openssl genpkey -algorithm RSA -pkeyopt rsa_keygen_bits:2048 -out tlsclifar.key.pem 2>/dev/null
+  openssl req -new -key tlsclifar.key.pem -subj "/C=CN/O=verifsim/CN=client valid around 2033 only" -out t.csr -sha256
+  openssl x509 -req -in t.csr -CA rsaCA.cert.pem -CAkey rsaCA.key.pem -out tlsclifar.cert.pem -extfile t.ext -not_before 20321220000000Z -not_after 20330201000000Z -sha256 -set_serial 9972 2>/dev/null
+  rm -f t.csr t.ext
+  openssl x509 -in clifar.cert.pem -noout -dates | tr '\n' ' '; openssl x509 -in tlsclifar.cert.pem -noout -dates | tr '\n' ' '; echo
+fi
